@@ -15,7 +15,10 @@ from . import zonefilegen as zg
 ID = "C13"
 DRIVER = "zonefile"
 COQ_TARGETS = ["Properties/C13.vo"]
-THEOREMS = ["C13_escape_roundtrip", "C13_escape_roundtrip_entry", "C13_serialise_octets_ascii"]
+THEOREMS = ["C13_escape_roundtrip", "C13_escape_roundtrip_entry", "C13_serialise_octets_ascii",
+            "C13_relative_name_roundtrip", "C13_zone_roundtrip", "C13_own_order_admissible", "C13_regroup_admissible",
+            "C13_normalise_idempotent", "C13_loaded_built", "C13_loaded_roundtrip", "C13_codec_instance",
+            "C13_zone_roundtrip_zf", "C13_ztoz_twice_zf"]
 RULE = ("cases: zones obtained by parsing generated zone-file text (labels over all ASCII octets except '.', incl. @ ; ( ) \" \\ "
         "space * and controls; RDATA over all 256 octets; authoritative and not; root and non-root apex; wildcard and apex "
         "records) and zones built through Zone::new/insert/insert_wildcard (ASCII dot-free labels not starting with '*', all "
@@ -27,7 +30,10 @@ ASSUMPTIONS = [
     "D7: labels containing '.' are outside C13",
     "HashMap order of the type groups inside one name is free: texts are compared after a stable sort of the lines of each "
     "block by (owner field, type field); Vec order inside a type group is kept and compared",
-    "only the escape-level theorem is proved here (escape_roundtrip); zone_roundtrip is the follow-up task",
+    "zone_roundtrip covers built zones whose apex and ordinary owners do not have the single octet '*' as leftmost label "
+    "(such an owner is the wildcard syntax; loaded zones never have one since fix 0286676, proved: loaded_built)",
+    "zone equality is stated up to the order of the type groups of a name (zone_same: per node and type the same record "
+    "lists); that the model's own second-pass TEXT is literally the first-pass text is checked by the stream, not proved",
 ]
 
 CORPUS = os.path.join(core.VERIF, "corpus", "C13")
